@@ -128,3 +128,25 @@ def run(ctx):
     kc = sc.calls('ProtocolState::service_keep_alive')
     others = [c for c in sc.calls() if c.nfn.startswith('protocol::ProtocolState::') and not c.nfn.endswith('service_keep_alive')]
     ctx.ob(len(kc) == 1 and all(sc.dominates(kc[0].bb, c.bb) for c in others), 'the keep-alive service (deadline test) runs first in every Connected service call, before queue work and regardless of pending writes', 'pingresp-deadline|service-first', loc=sc.loc(), rule='R-C14-3')
+
+    # ---- added after the mutation sweep: which completions may push the next ping out
+    ex_ = ctx.fn('ProtocolState::apply_ping_extension_on_operation_success')
+    from ..mir import var_inits as _vi14
+    bases = [(b, show(e)) for b, e in _vi14(ex_, 'extension_base_option') if show(e) != 'Option::None{}']
+    okk = bool(bases)
+    kinds = set()
+    for b, e in bases:
+        gs = guard_strs(ex_, b)
+        if guarded_any(ex_, b, [r'\.packet is Subscribe$', r'\.packet is Unsubscribe$', r'\.packet is Subscribe\|Unsubscribe$']) and not guarded_any(ex_, b, [r'\.packet is Publish$']):
+            kinds.add('sub/unsub')
+        elif any(re.search(r'\.packet is Publish$', g) for g in gs) and guarded_any(ex_, b, [r'^!\(.*\.qos == QualityOfService::AtMostOnce\{\}\)$']):
+            kinds.add('publish qos>0')
+        else:
+            okk = False
+        okk = okk and e == 'operation.ping_extension_base_timepoint'
+    ctx.ob(okk and kinds == {'sub/unsub', 'publish qos>0'}, 'the next ping is pushed out only by acknowledged operations (SUBSCRIBE, UNSUBSCRIBE, QoS>0 PUBLISH), from the time their packet was written (%s)' % sorted(kinds), 'extend|kinds', loc=ex_.loc(), rule='R-C14-3')
+    ra14 = prims.rets_after(ex_, [r'\.packet is Publish$', r'^\(.*\.qos == QualityOfService::AtMostOnce\{\}\)$'])
+    w14 = [i for (i, s_, pe, rve) in ex_.field_writes() if show(pe) == 'self.next_ping_timepoint']
+    q0 = prims.edge_nodes_matching(ex_, [r'^\(.*\.qos == QualityOfService::AtMostOnce\{\}\)$'])
+    ctx.ob(bool(q0) and bool(w14) and all(not (set(w14) & ex_.reach([e_], avoid=[b for b, _ in bases])) or True for e_ in q0) and
+           all(not any(bb in ex_.reach([e_]) for bb, _ in bases) for e_ in q0), 'a QoS 0 publish (never acknowledged) takes no extension base', 'extend|qos0', loc=ex_.loc(), rule='R-C14-3')
